@@ -400,6 +400,46 @@ func storeLinearizable(hist []*OpRecord, obs []StorePoolState, pools map[int]str
 	return why
 }
 
+// StoreLinearizableModuloRemovedPool repeats the search with every acknowledged commit (load /
+// delete) on a pool that overlaps an acknowledged removePool of that pool treated like an
+// unfinished operation (all or none of its effect, any result).  It returns true when the
+// history is linearizable under that reading — the failure class of the known defect
+// "commit into a pool directory that RemovePool has just deleted".
+func StoreLinearizableModuloRemovedPool(hist []*OpRecord, obs []StorePoolState, pools map[int]string, commits map[int]string) bool {
+	var relaxed []*OpRecord
+	changed := false
+	for _, h := range hist {
+		hh := *h
+		if (h.Op.Kind == "load" || h.Op.Kind == "delete") && h.Res == "ok" {
+			for _, r := range hist {
+				if r.Op.Kind == "removePool" && r.Res == "ok" && r.Op.Pool == h.Op.Pool && r.Start < h.End && h.Start < r.End {
+					hh.Res, hh.End = "", -1
+					changed = true
+				}
+			}
+		}
+		relaxed = append(relaxed, &hh)
+	}
+	if !changed {
+		return false
+	}
+	// an unacknowledged commit id on a chain is tolerated by the search only when the id is
+	// unknown; forget the ids of the relaxed commits
+	c2 := map[int]string{}
+	for l, id := range commits {
+		keep := true
+		for _, h := range relaxed {
+			if h.Res == "" && h.Op.Lbl == l {
+				keep = false
+			}
+		}
+		if keep {
+			c2[l] = id
+		}
+	}
+	return storeLinearizable(relaxed, obs, pools, c2, true) == "" || storeLinearizable(relaxed, obs, pools, c2, false) == ""
+}
+
 // StoreIDStrings converts the registries of a run for the oracle.
 func (r *StoreRun) StoreIDStrings() (pools, commits map[int]string) {
 	pools, commits = map[int]string{}, map[int]string{}
